@@ -381,6 +381,13 @@ def r6_protected_arrays_resolve(ctx, rep):
     c06.r2_public_only(ctx, rep)
 
 
+def r7_dependency_closure(ctx, rep):
+    """calls are resolved against what the used modules export, so a module is correlated after every module that any procedure
+    nested in it uses (shared with C06.R3)"""
+    from . import c06
+    c06.r3_dependency_order(ctx, rep)
+
+
 RULES = [
     RuleSpec("C08.R5", r5_external_and_semicolons, "EXTERNAL handling order; exact `;` splitting (shared with C02.R3)", floor=2),
     RuleSpec("C08.R1", r1_not_scanned, "statements that must not be scanned", floor=15),
@@ -389,4 +396,5 @@ RULES = [
     RuleSpec("C08.R4", r4_call_forms, "call statement forms are recognised", floor=4),
     RuleSpec("C08.R6", r6_association_scoping_and_pushback, "ASSOCIATE scoping and statement order on ;-lines", floor=3),
     RuleSpec("C08.R6", r6_protected_arrays_resolve, "protected variables are exported, so their element references resolve (shared with C06.R2)", floor=7),
+    RuleSpec("C08.R7", r7_dependency_closure, "modules are correlated after everything nested procedures use (shared with C06.R3)", floor=5),
 ]
